@@ -283,24 +283,33 @@ theorem NM_resultRows (q : AggStmt) (groups : GroupMap Value) (seen : List (List
       | some e => rw [hh] at hhaving; exact NM_acceptGroup O ok hok _ _ _ _ hhaving
     · repeat' (first | exact ih _ | exact NM_bind (ih _) (fun _ => NM_pure _) | split)
 
-theorem NM_checkRows (q : AggStmt) (groups : GroupMap Value) (u : Unit) (hitems : q.items.all (·.allFuncs ok) = true) :
-    NM (groups.foldlM (fun (_ : Unit) (g : List Value × List (Nat × Value)) => do
-        let _ ← rowOf O q g.1 g.2 (enumFrom 0 q.items)
-        pure ()) u : Outcome Unit) := by
-  induction groups generalizing u with
+theorem NM_aggColumn (q : AggStmt) (i : Nat) (item : AggItem) (h : item.allFuncs ok = true) (groups : GroupMap Value) :
+    NM (aggColumn O q i item groups) := by
+  induction groups with
   | nil => rfl
   | cons g rest ih =>
-    simp only [List.foldlM_cons]
-    apply NM_bind
-    · exact NM_bind (NM_rowOf O ok hok q g.1 g.2 _ (items_ok' ok q hitems)) (fun _ => NM_pure _)
-    · intro _; exact ih _
+    obtain ⟨key, subs⟩ := g
+    unfold aggColumn
+    refine NM_bind (NM_cellOf O ok hok q i item key subs h) (fun _ => ?_)
+    exact NM_bind ih (fun _ => rfl)
+
+/-- the column pass of `execute_result` (`extract_result_rows_by_column`) -/
+theorem NM_checkRows (q : AggStmt) (groups : GroupMap Value) (items : List (Nat × AggItem))
+    (h : ∀ p ∈ items, p.2.allFuncs ok = true) : NM (aggColumns O q groups items) := by
+  induction items with
+  | nil => rfl
+  | cons p rest ih =>
+    obtain ⟨i, item⟩ := p
+    unfold aggColumns
+    refine NM_bind (NM_aggColumn O ok hok q i item (h (i, item) List.mem_cons_self) groups) (fun _ => ?_)
+    exact NM_bind (ih (fun p hp => h p (List.mem_cons_of_mem _ hp))) (fun _ => rfl)
 
 theorem NM_aggResult (q : AggStmt) (st : AggState) (h : q.allFuncs ok = true) : NM (aggResult O q st) := by
   simp only [AggStmt.allFuncs, Bool.and_eq_true] at h
   obtain ⟨⟨⟨⟨⟨hitems, _⟩, _⟩, hhaving⟩, _⟩, _⟩ := h
   unfold aggResult
   simp only
-  refine NM_bind (NM_checkRows O ok hok q _ () hitems) (fun _ => ?_)
+  refine NM_bind (NM_checkRows O ok hok q _ _ (items_ok' ok q hitems)) (fun _ => ?_)
   exact NM_bind (NM_resultRows O ok hok q _ [] hitems hhaving) (fun _ => rfl)
 
 theorem NM_finalResult (q : AggStmt) (es : EngineState) (h : q.allFuncs ok = true) : NM (finalResult O q es) := by
